@@ -36,25 +36,123 @@ theorem allDeclared_append (xs ys : List SeqItem) : allDeclared (xs ++ ys) = all
   | nil => rfl
   | cons i is ih => cases i <;> simp [allDeclared, ih]
 
-/-- the free-function path: each scope's vector grows by exactly the declarations of that scope, in order -/
+/-! ## the gathering loop -/
+
+/-- the loop only ever appends the functions it meets -/
+theorem gatherLoop_eq (acc : List TCand) (syms : List Sym) : gatherLoop acc syms = acc ++ syms.filterMap Sym.fn? := by
+  induction syms generalizing acc with
+  | nil => simp [gatherLoop]
+  | cons x xs ih => cases x <;> simp [gatherLoop, ih, List.filterMap_cons, Sym.fn?]
+
+theorem gatherLoop_nil (syms : List Sym) : gatherLoop [] syms = syms.filterMap Sym.fn? := by
+  simpa using gatherLoop_eq [] syms
+
+theorem mem_gatherLoop {syms : List Sym} {c : TCand} (h : c ∈ gatherLoop [] syms) : Sym.fn c ∈ syms := by
+  rw [gatherLoop_nil, List.mem_filterMap] at h
+  obtain ⟨x, hx, hc⟩ := h
+  cases x <;> simp [Sym.fn?] at hc
+  subst hc; exact hx
+
+/-- the symbols a stretch of the unit pushes onto the vector of one scope, in order -/
+def symsOf (scope : Nat) : List SeqItem → List Sym
+  | [] => []
+  | .decl s c :: is => if s = scope then .fn c :: symsOf scope is else symsOf scope is
+  | .other s k :: is => if s = scope then k.syms ++ symsOf scope is else symsOf scope is
+  | _ :: is => symsOf scope is
+
+/-- the same for the root vector of an intrinsic's name: every declaration lands there -/
+def symsAll : List SeqItem → List Sym
+  | [] => []
+  | .decl _ c :: is => .fn c :: symsAll is
+  | .other _ k :: is => k.syms ++ symsAll is
+  | _ :: is => symsAll is
+
+theorem kind_syms_fns (k : OtherKind) : k.syms.filterMap Sym.fn? = [] := by cases k <;> rfl
+
+theorem kind_syms_type (k : OtherKind) : k.syms.any Sym.isType = k.isType := by cases k <;> rfl
+
+theorem symsOf_fns (scope : Nat) (xs : List SeqItem) : (symsOf scope xs).filterMap Sym.fn? = declared scope xs := by
+  induction xs with
+  | nil => rfl
+  | cons i is ih =>
+    cases i with
+    | decl s c => by_cases h : s = scope <;> simp [symsOf, declared, h, ih, Sym.fn?]
+    | other s k => by_cases h : s = scope <;> simp [symsOf, declared, h, ih, kind_syms_fns]
+    | define id => simp [symsOf, declared, ih]
+    | site m x a => simp [symsOf, declared, ih]
+    | helper j m a => simp [symsOf, declared, ih]
+    | trigger j z => simp [symsOf, declared, ih]
+
+theorem symsOf_type (scope : Nat) (xs : List SeqItem) : (symsOf scope xs).any Sym.isType = declaresType scope xs := by
+  induction xs with
+  | nil => rfl
+  | cons i is ih =>
+    cases i with
+    | decl s c => by_cases h : s = scope <;> simp [symsOf, declaresType, h, ih, Sym.isType]
+    | other s k => by_cases h : s = scope <;> simp [symsOf, declaresType, h, ih, kind_syms_type]
+    | define id => simp [symsOf, declaresType, ih]
+    | site m x a => simp [symsOf, declaresType, ih]
+    | helper j m a => simp [symsOf, declaresType, ih]
+    | trigger j z => simp [symsOf, declaresType, ih]
+
+theorem symsAll_fns (xs : List SeqItem) : (symsAll xs).filterMap Sym.fn? = allDeclared xs := by
+  induction xs with
+  | nil => rfl
+  | cons i is ih => cases i <;> simp [symsAll, allDeclared, ih, Sym.fn?, kind_syms_fns]
+
+theorem symsAll_type (xs : List SeqItem) : (symsAll xs).any Sym.isType = declaresTypeAnywhere xs := by
+  induction xs with
+  | nil => rfl
+  | cons i is ih => cases i <;> simp [symsAll, declaresTypeAnywhere, ih, Sym.isType, kind_syms_type]
+
+/-- `find_identifier_in_scope` on a vector = what the specification says the scope knows -/
+theorem findInScope_eq (syms : List Sym) :
+    findInScope syms = scopeKnows (syms.filterMap Sym.fn?) (syms.any Sym.isType) := by
+  simp only [findInScope, scopeKnows, gatherLoop_nil]
+
+theorem lookupChain_one (s : List Sym) : lookupChain [s] = findInScope s := by
+  simp only [lookupChain]; cases findInScope s <;> rfl
+
+theorem lookupChain_two (s t : List Sym) :
+    lookupChain [s, t] = if findInScope s = .nothing then findInScope t else findInScope s := by
+  simp only [lookupChain]; cases findInScope s <;> cases findInScope t <;> simp
+
+theorem map_fn_fns (v : List TCand) : (v.map Sym.fn).filterMap Sym.fn? = v := by
+  induction v with
+  | nil => rfl
+  | cons c cs ih => simp [Sym.fn?, ih]
+
+theorem map_fn_type (v : List TCand) : (v.map Sym.fn).any Sym.isType = false := by
+  induction v with
+  | nil => rfl
+  | cons c cs ih => simp [Sym.isType]
+
+/-- the free-function path: each scope's vector grows by exactly the symbols of that scope, in order -/
 theorem stateAfter_free (st : SeqState) (xs : List SeqItem) :
-    (stateAfter .free st xs).root = st.root ++ declared 0 xs ∧ (stateAfter .free st xs).ns = st.ns ++ declared 1 xs := by
+    (stateAfter .free st xs).root = st.root ++ symsOf 0 xs ∧ (stateAfter .free st xs).ns = st.ns ++ symsOf 1 xs := by
   induction xs generalizing st with
-  | nil => simp [stateAfter, declared]
+  | nil => simp [stateAfter, symsOf]
   | cons i is ih =>
     cases i with
     | decl s c =>
       simp only [stateAfter, seqStep]
       by_cases h0 : s = 0
-      · subst h0; simp [ih, declared]
+      · subst h0; simp [ih, symsOf]
       · by_cases h1 : s = 1
-        · subst h1; simp [ih, declared]
-        · simp [h0, h1, ih, declared]
-    | define id => simp [stateAfter, seqStep, ih, declared]
-    | site m x a => simp [stateAfter, seqStep, ih, declared]
-    | helper j m a => simp [stateAfter, seqStep, ih, declared]
+        · subst h1; simp [ih, symsOf]
+        · simp [h0, h1, ih, symsOf]
+    | other s k =>
+      simp only [stateAfter, seqStep]
+      by_cases h0 : s = 0
+      · subst h0; simp [ih, symsOf]
+      · by_cases h1 : s = 1
+        · subst h1; simp [ih, symsOf]
+        · simp [h0, h1, ih, symsOf]
+    | define id => simp [stateAfter, seqStep, ih, symsOf]
+    | site m x a => simp [stateAfter, seqStep, ih, symsOf]
+    | helper j m a => simp [stateAfter, seqStep, ih, symsOf]
     | trigger j z =>
-      simp only [stateAfter, seqStep, declared]
+      simp only [stateAfter, seqStep, symsOf]
       split
       · simp [ih]
       · split
@@ -63,17 +161,18 @@ theorem stateAfter_free (st : SeqState) (xs : List SeqItem) :
 
 /-- the compiler's overloads and the user's share the root vector -/
 theorem stateAfter_intrinsic (st : SeqState) (xs : List SeqItem) :
-    (stateAfter .intrinsic st xs).root = st.root ++ allDeclared xs := by
+    (stateAfter .intrinsic st xs).root = st.root ++ symsAll xs := by
   induction xs generalizing st with
-  | nil => simp [stateAfter, allDeclared]
+  | nil => simp [stateAfter, symsAll]
   | cons i is ih =>
     cases i with
-    | decl s c => simp [stateAfter, seqStep, ih, allDeclared]
-    | define id => simp [stateAfter, seqStep, ih, allDeclared]
-    | site m x a => simp [stateAfter, seqStep, ih, allDeclared]
-    | helper j m a => simp [stateAfter, seqStep, ih, allDeclared]
+    | decl s c => simp [stateAfter, seqStep, ih, symsAll]
+    | other s k => simp [stateAfter, seqStep, ih, symsAll]
+    | define id => simp [stateAfter, seqStep, ih, symsAll]
+    | site m x a => simp [stateAfter, seqStep, ih, symsAll]
+    | helper j m a => simp [stateAfter, seqStep, ih, symsAll]
     | trigger j z =>
-      simp only [stateAfter, seqStep, allDeclared]
+      simp only [stateAfter, seqStep, symsAll]
       split
       · simp [ih]
       · split
@@ -95,6 +194,7 @@ theorem declared_append (s : Nat) (xs ys : List SeqItem) : declared s (xs ++ ys)
     | site m x a => simp [declared, ih]
     | helper j m a => simp [declared, ih]
     | trigger j z => simp [declared, ih]
+    | other s' k => simp [declared, ih]
 
 theorem declared_of_not_decl (s : Nat) (it : SeqItem) (h : allDeclared [it] = []) : declared s [it] = [] := by
   cases it <;> simp_all [allDeclared, declared]
@@ -107,6 +207,7 @@ theorem stateAfter_method (st : SeqState) (xs : List SeqItem) :
   | cons i is ih =>
     cases i with
     | decl s c => simp [stateAfter, seqStep, ih]
+    | other s k => simp [stateAfter, seqStep, ih]
     | define id => simp [stateAfter, seqStep, ih]
     | site m x a => simp [stateAfter, seqStep, ih]
     | helper j m a => simp [stateAfter, seqStep, ih]
@@ -118,6 +219,7 @@ theorem stateAfter_method (st : SeqState) (xs : List SeqItem) :
         · simp [ih]
         · split <;> simp [ih]
 
+set_option linter.unusedSimpArgs false in
 /-- **the vector `find_identifier` hands over at a call between `pre` and `post` is the specification's visible set** -/
 theorem visible_eq_visibleAt (p : SeqPath) (pre post : List SeqItem) (it : SeqItem) (hit : allDeclared [it] = [])
     (m : Nat) :
@@ -126,12 +228,12 @@ theorem visible_eq_visibleAt (p : SeqPath) (pre post : List SeqItem) (it : SeqIt
   | free =>
     have h := stateAfter_free (SeqState.init .free (pre ++ it :: post)) pre
     simp only [SeqState.init, List.nil_append] at h
-    simp only [SeqState.visible, visibleAt, SeqState.init, h.1, h.2]
     match m with
-    | 0 => rfl
-    | 1 => rfl
-    | 2 => rfl
-    | _ + 3 => rfl
+    | 0 => simp only [SeqState.visible, visibleAt, SeqState.init, h.1, lookupChain_one, findInScope_eq, symsOf_fns, symsOf_type]
+    | 1 => simp only [SeqState.visible, visibleAt, SeqState.init, h.2, lookupChain_one, findInScope_eq, symsOf_fns, symsOf_type]
+    | 2 =>
+      simp only [SeqState.visible, visibleAt, SeqState.init, h.1, h.2, lookupChain_two, findInScope_eq, symsOf_fns, symsOf_type]
+    | _ + 3 => simp only [SeqState.visible, visibleAt, SeqState.init, h.1, lookupChain_one, findInScope_eq, symsOf_fns, symsOf_type]
   | method =>
     have hr := stateAfter_method (SeqState.init .method (pre ++ it :: post)) pre
     have this : ∀ s, declaredIn s (pre ++ it :: post) = declared s (pre ++ post) := by
@@ -139,18 +241,16 @@ theorem visible_eq_visibleAt (p : SeqPath) (pre post : List SeqItem) (it : SeqIt
       rw [declaredIn_eq_declared, declared_append, declared_append, show it :: post = [it] ++ post from rfl,
         declared_append, declared_of_not_decl s it hit]; rfl
     simp only [SeqState.init, this] at hr
-    simp only [SeqState.visible, visibleAt, SeqState.init, this]
-    simp only [hr.1, hr.2]
     match m with
-    | 0 => rfl
-    | 1 => rfl
-    | 2 => rfl
-    | 3 => rfl
-    | _ + 4 => rfl
+    | 0 => simp only [SeqState.visible, visibleAt, SeqState.init, this, hr.1, hr.2, lookupChain_one, findInScope_eq, map_fn_fns, map_fn_type]
+    | 1 => simp only [SeqState.visible, visibleAt, SeqState.init, this, hr.1, hr.2, lookupChain_one, findInScope_eq, map_fn_fns, map_fn_type]
+    | 2 => simp only [SeqState.visible, visibleAt, SeqState.init, this, hr.1, hr.2, lookupChain_one, findInScope_eq, map_fn_fns, map_fn_type]
+    | 3 => simp only [SeqState.visible, visibleAt, SeqState.init, this, hr.1, hr.2, lookupChain_one, findInScope_eq, map_fn_fns, map_fn_type]
+    | _ + 4 => simp only [SeqState.visible, visibleAt, SeqState.init, this, hr.1, hr.2, lookupChain_one, findInScope_eq, map_fn_fns, map_fn_type]
   | intrinsic =>
     have hr := stateAfter_intrinsic (SeqState.init .intrinsic (pre ++ it :: post)) pre
     simp only [SeqState.init, List.nil_append] at hr
-    simp only [SeqState.visible, visibleAt, SeqState.init, hr]
+    simp only [SeqState.visible, visibleAt, SeqState.init, hr, lookupChain_one, findInScope_eq, symsAll_fns, symsAll_type]
 
 /-- what the site between `pre` and `post` shows -/
 theorem site_obs_iff (p : SeqPath) (pre post : List SeqItem) (m : Nat) (x : List TArg) (a : List ETy) (o : SiteObs) :
@@ -325,46 +425,52 @@ theorem callTR_eq {D : List TCand} (hD : (D.map (·.id)).Nodup) (x : List TArg) 
   exact ⟨by rw [h1], h2⟩
 
 theorem siteObsR_eq {D : List TCand} (hD : (D.map (·.id)).Nodup) (x : List TArg) (a : List ETy)
-    (v : Option (List TCand)) (r : InstReg) (hr : RegOK D r) (hsub : ∀ cands, v = some cands → ∀ c ∈ cands, c ∈ D) :
+    (v : Found) (r : InstReg) (hr : RegOK D r) (hsub : ∀ cands, v = .functions cands → ∀ c ∈ cands, c ∈ D) :
     (siteObsR r v x a).1 = siteObs v x a ∧ RegOK D (siteObsR r v x a).2 := by
   cases v with
-  | none => exact ⟨rfl, hr⟩
-  | some cands =>
+  | nothing => exact ⟨rfl, hr⟩
+  | type => exact ⟨rfl, hr⟩
+  | functions cands =>
     obtain ⟨h1, h2⟩ := callTR_eq hD x a cands r hr (hsub cands rfl)
     simp only [siteObsR, siteObs]
     exact ⟨by rw [h1], h2⟩
 
 /-- the symbol vectors hold declared candidates only -/
-def VecOK (D : List TCand) (st : SeqState) : Prop := (∀ c ∈ st.root, c ∈ D) ∧ (∀ c ∈ st.ns, c ∈ D)
+def VecOK (D : List TCand) (st : SeqState) : Prop := (∀ c, Sym.fn c ∈ st.root → c ∈ D) ∧ (∀ c, Sym.fn c ∈ st.ns → c ∈ D)
+
+theorem findInScope_sub {D : List TCand} {syms : List Sym} (h : ∀ c, Sym.fn c ∈ syms → c ∈ D) (cands : List TCand)
+    (hv : findInScope syms = .functions cands) : ∀ c ∈ cands, c ∈ D := by
+  unfold findInScope at hv
+  simp only at hv
+  split at hv
+  · simp only [Found.functions.injEq] at hv; subst hv
+    exact fun c hc => h c (mem_gatherLoop hc)
+  · split at hv <;> simp at hv
 
 theorem visible_sub {D : List TCand} {st : SeqState} (h : VecOK D st) (p : SeqPath) (m : Nat) (cands : List TCand)
-    (hv : st.visible p m = some cands) : ∀ c ∈ cands, c ∈ D := by
-  have key : ∀ v : List TCand, (∀ c ∈ v, c ∈ D) → (if v.isEmpty then none else some v) = some cands →
-      ∀ c ∈ cands, c ∈ D := by
-    intro v hvD hh
+    (hv : st.visible p m = .functions cands) : ∀ c ∈ cands, c ∈ D := by
+  have h2 : lookupChain [st.ns, st.root] = .functions cands → ∀ c ∈ cands, c ∈ D := by
+    intro hh
+    rw [lookupChain_two] at hh
     split at hh
-    · simp at hh
-    · simp only [Option.some.injEq] at hh; subst hh; exact hvD
-  have h2 : ∀ c ∈ (if st.ns.isEmpty then st.root else st.ns), c ∈ D := by
-    split
-    · exact h.1
-    · exact h.2
+    · exact findInScope_sub h.1 cands hh
+    · exact findInScope_sub h.2 cands hh
   unfold SeqState.visible at hv
   cases p with
   | free =>
     match m with
-    | 0 => exact key _ h.1 hv
-    | 1 => exact key _ h.2 hv
-    | 2 => exact key _ h2 hv
-    | _ + 3 => exact key _ h.1 hv
+    | 0 => exact findInScope_sub h.1 cands (by rw [← lookupChain_one]; exact hv)
+    | 1 => exact findInScope_sub h.2 cands (by rw [← lookupChain_one]; exact hv)
+    | 2 => exact h2 hv
+    | _ + 3 => exact findInScope_sub h.1 cands (by rw [← lookupChain_one]; exact hv)
   | method =>
     match m with
-    | 0 => exact key _ h.1 hv
-    | 1 => exact key _ h.1 hv
-    | 2 => exact key _ h.2 hv
-    | 3 => exact key _ h.2 hv
-    | _ + 4 => exact key _ h.1 hv
-  | intrinsic => exact key _ h.1 hv
+    | 0 => exact findInScope_sub h.1 cands (by rw [← lookupChain_one]; exact hv)
+    | 1 => exact findInScope_sub h.1 cands (by rw [← lookupChain_one]; exact hv)
+    | 2 => exact findInScope_sub h.2 cands (by rw [← lookupChain_one]; exact hv)
+    | 3 => exact findInScope_sub h.2 cands (by rw [← lookupChain_one]; exact hv)
+    | _ + 4 => exact findInScope_sub h.1 cands (by rw [← lookupChain_one]; exact hv)
+  | intrinsic => exact findInScope_sub h.1 cands (by rw [← lookupChain_one]; exact hv)
 
 theorem seqStepR_eq {D : List TCand} (hD : (D.map (·.id)).Nodup) (p : SeqPath) (st : SeqState) (r : InstReg)
     (i : SeqItem) (hst : VecOK D st) (hr : RegOK D r) (hi : ∀ c ∈ allDeclared [i], c ∈ D) :
@@ -373,30 +479,42 @@ theorem seqStepR_eq {D : List TCand} (hD : (D.map (·.id)).Nodup) (p : SeqPath) 
   cases i with
   | decl s c =>
     have hc : c ∈ D := hi c (by simp [allDeclared])
+    have push : ∀ v : List Sym, (∀ c', Sym.fn c' ∈ v → c' ∈ D) → ∀ c', Sym.fn c' ∈ v ++ [Sym.fn c] → c' ∈ D := by
+      intro v hv c' h
+      simp only [List.mem_append, List.mem_singleton, Sym.fn.injEq] at h
+      rcases h with h | rfl
+      · exact hv c' h
+      · exact hc
     refine ⟨rfl, rfl, ?_, hr⟩
     simp only [seqStep]
     cases p with
     | method => exact hst
-    | intrinsic =>
-      exact ⟨fun c' h => by
-        simp only [List.mem_append, List.mem_singleton] at h
-        rcases h with h | rfl
-        · exact hst.1 c' h
-        · exact hc, hst.2⟩
+    | intrinsic => exact ⟨push _ hst.1, hst.2⟩
     | free =>
       simp only
       split
-      · exact ⟨fun c' h => by
-          simp only [List.mem_append, List.mem_singleton] at h
-          rcases h with h | rfl
-          · exact hst.1 c' h
-          · exact hc, hst.2⟩
+      · exact ⟨push _ hst.1, hst.2⟩
       · split
-        · exact ⟨hst.1, fun c' h => by
-            simp only [List.mem_append, List.mem_singleton] at h
-            rcases h with h | rfl
-            · exact hst.2 c' h
-            · exact hc⟩
+        · exact ⟨hst.1, push _ hst.2⟩
+        · exact hst
+  | other s k =>
+    have push : ∀ v : List Sym, (∀ c', Sym.fn c' ∈ v → c' ∈ D) → ∀ c', Sym.fn c' ∈ v ++ k.syms → c' ∈ D := by
+      intro v hv c' h
+      simp only [List.mem_append] at h
+      rcases h with h | h
+      · exact hv c' h
+      · cases k <;> simp [OtherKind.syms] at h
+    refine ⟨rfl, rfl, ?_, hr⟩
+    simp only [seqStep]
+    cases p with
+    | method => exact hst
+    | intrinsic => exact ⟨push _ hst.1, hst.2⟩
+    | free =>
+      simp only
+      split
+      · exact ⟨push _ hst.1, hst.2⟩
+      · split
+        · exact ⟨hst.1, push _ hst.2⟩
         · exact hst
   | define id => exact ⟨rfl, rfl, hst, hr⟩
   | helper j m a => exact ⟨rfl, rfl, hst, hr⟩
@@ -463,13 +581,17 @@ theorem declaredIn_sub (s : Nat) (items : List SeqItem) : ∀ c ∈ declaredIn s
     | site m x a => simpa [declaredIn, allDeclared] using ih
     | helper j m a => simpa [declaredIn, allDeclared] using ih
     | trigger j z => simpa [declaredIn, allDeclared] using ih
+    | other s k => simpa [declaredIn, allDeclared] using ih
 
 theorem runSeqR_eq (p : SeqPath) (items : List SeqItem) (hD : ((allDeclared items).map (·.id)).Nodup) :
     runSeqR p items = runSeq p items := by
   unfold runSeqR runSeq
   apply runFromR_eq hD p items _ _ _ _ (regOK_nil _) (fun c h => h)
   cases p with
-  | method => exact ⟨declaredIn_sub 0 items, declaredIn_sub 1 items⟩
+  | method =>
+    refine ⟨fun c h => declaredIn_sub 0 items c ?_, fun c h => declaredIn_sub 1 items c ?_⟩
+    · simpa [SeqState.init] using h
+    · simpa [SeqState.init] using h
   | free => exact ⟨by simp [SeqState.init], by simp [SeqState.init]⟩
   | intrinsic => exact ⟨by simp [SeqState.init], by simp [SeqState.init]⟩
 
